@@ -431,6 +431,8 @@ pub struct DecodedDisclosure {
 #[derive(Clone, Debug)]
 pub struct SdList {
     pub at: String,
+    /// found inside the value of a disclosure (true) or in the signed payload itself (false)
+    pub in_disclosure: bool,
     /// per entry: Some(member index in U's object order) for a real digest, None for a decoy
     pub entries: Vec<Option<usize>>,
 }
@@ -446,6 +448,8 @@ pub struct Located {
     pub objects: u64,
     pub objects_with_decoy: u64,
     pub complaints: Vec<Complaint>,
+    /// walk state: > 0 while inside the value of a disclosure
+    pub disc_depth: u32,
 }
 
 pub fn decode_disclosures(ds: &[String]) -> Result<HashMap<String, DecodedDisclosure>, Complaint> {
@@ -620,6 +624,7 @@ fn walk(
                 if !entries.is_empty() {
                     l.sd_lists.push(SdList {
                         at: path_str(p),
+                        in_disclosure: l.disc_depth > 0,
                         entries,
                     });
                 }
@@ -635,7 +640,9 @@ fn walk(
                         None => l.complaints.push(complain("hidden-member-without-disclosure", p, "")),
                         Some((raw, val, _)) => {
                             l.map.insert(p.clone(), raw);
+                            l.disc_depth += 1;
                             walk(c, &val, p, sd, by, decoys, false, None, l);
+                            l.disc_depth -= 1;
                         }
                     }
                 } else {
@@ -713,7 +720,9 @@ fn walk(
                                 Some(dd) => match dd.json.as_array() {
                                     Some(arr) if arr.len() == 2 && arr[0].is_string() => {
                                         l.map.insert(p.clone(), dd.raw.clone());
+                                        l.disc_depth += 1;
                                         walk(c, &arr[1], p, sd, by, decoys, false, None, l);
+                                        l.disc_depth -= 1;
                                     }
                                     _ => l.complaints.push(complain(
                                         "element-disclosure-not-[salt,value]",
